@@ -282,7 +282,7 @@ def fileCreateNextBlock (h : FileH) : Prog (RC × FileH) := do
     if isOFSvol vc then
       let h ← (do
         if h.pos ≥ dbs then
-          let d := setBE32 h.curData 16 nSect
+          let d := setBE32 (setBE32 h.curData 16 nSect) 12 dbs
           let (_, d) ← writeDataBlock h.vol h.curDataPtr d
           return { h with curData := d }
         else return h : Prog FileH)
